@@ -1,5 +1,5 @@
 /-
-  Cache invariant of the repaired revision (`Variant.invalidate`): every cache entry, and every
+  Cache invariant of the current code (`Variant.invalidate`): every cache entry, and every
   value a lookup has fetched and may still store, is either what the store says now, or is
   doomed — a change of that key is still to be followed by its invalidation, or the generation
   has moved on.  Holds along every schedule, without side conditions.
